@@ -22,7 +22,7 @@ func (w *recWriter) Write(b []byte) (int, error) {
 	return len(b), nil
 }
 
-// twOp is one parsed operation of a case line: kind 'w' (with bytes), 'L', 'R' or 'F'.
+// twOp is one parsed operation of a case line: kind 'w' (with bytes), 'L', 'R', 'F' or 'v' (WriteVerbatim, with bytes).
 type twOp struct {
 	kind byte
 	b    []byte
@@ -35,7 +35,7 @@ func parseTwOps(opsF string) []twOp {
 	var ops []twOp
 	for _, f := range strings.Split(opsF, ",") {
 		o := twOp{kind: f[0]}
-		if o.kind == 'w' {
+		if o.kind == 'w' || o.kind == 'v' {
 			o.b, _ = hex.DecodeString(f[1:])
 		}
 		ops = append(ops, o)
@@ -50,7 +50,7 @@ func showTwOps(ops []twOp) string {
 	parts := make([]string, len(ops))
 	for i, o := range ops {
 		parts[i] = string(o.kind)
-		if o.kind == 'w' {
+		if o.kind == 'w' || o.kind == 'v' {
 			parts[i] += hex.EncodeToString(o.b)
 		}
 	}
@@ -66,6 +66,8 @@ func runRealTW(ops []twOp) [][]byte {
 		switch o.kind {
 		case 'w':
 			tw.Write(o.b)
+		case 'v':
+			tw.WriteVerbatim(o.b)
 		case 'L':
 			tw.TrimLeft()
 		case 'R':
@@ -87,7 +89,7 @@ func twCase(r *Run, opsF, caseLine string) string {
 		valid, trims := true, 0 // every write is valid UTF-8 (the hypothesis ValidOps of Proofs/C13.lean)
 		for _, o := range ops {
 			switch o.kind {
-			case 'w':
+			case 'w', 'v':
 				plain.Write(o.b)
 				valid = valid && utf8.Valid(o.b)
 			case 'L', 'R':
@@ -105,6 +107,7 @@ func twCase(r *Run, opsF, caseLine string) string {
 			twAdjacentOracle(r, caseLine, ops, out)
 		}
 		twLastWriteOracle(r, caseLine, ops, out)
+		twVerbatimOracle(r, caseLine, ops, calls)
 		if len(parts) == 0 {
 			return "-"
 		}
@@ -156,7 +159,7 @@ func twStream(r *Run) {
 		}
 	}
 	// exhaustive 1: all op lists of length <= 5 (thorough: 6) over a small op alphabet
-	alpha := []string{"L", "R", "F", "w", "w20", "w78", "w2078", "w7820", "w0a20"}
+	alpha := []string{"L", "R", "F", "w", "w20", "w78", "w2078", "w7820", "w0a20", "v", "v207820"}
 	depth := 5
 	if r.Tier == "thorough" {
 		depth = 6
@@ -185,6 +188,9 @@ func twStream(r *Run) {
 			emit([]string{w1, "R", "L", w2, "L"})
 			emit([]string{w1, "R", "F", w2, "L"})
 			emit([]string{w1, "L", "R", w2, "w78", "L"})
+			// a verbatim write between a right and a left trim, after and before ordinary writes
+			emit([]string{w1, "R", "v" + w2[1:], "L", "w2078"})
+			emit([]string{"R", "v" + w1[1:], "v" + w2[1:], "L"})
 		}
 	}
 	n := 50000
@@ -202,6 +208,12 @@ func twStream(r *Run) {
 				ops[j] = "R"
 			case 4:
 				ops[j] = "F"
+			case 5:
+				s := g.Pick(twPieces)
+				for g.Chance(30) {
+					s += g.Pick(twPieces)
+				}
+				ops[j] = "v" + hex.EncodeToString([]byte(s))
 			default:
 				s := g.Pick(twPieces)
 				for g.Chance(30) {
